@@ -68,7 +68,9 @@ def run(ctx):
         classes = []
         for k in range(rng.choice([2, 3, 4])):
             hs = sorted(set(rng.sample(CONCRETE, rng.choice([0, 1, 3, 6])) + rng.sample(BASES, rng.choice([0, 1, 2, 3]))))
-            classes.append((hs, make_probe(I, I.visitor.PathTrackingVisitor, hs, "Probe%d_%d" % (h, k),
+            # (a third of the probes are plain TreeVisitors: no path in the context, parents only)
+            base_cls = I.visitor.TreeVisitor if (h + k) % 3 == 0 else I.visitor.PathTrackingVisitor
+            classes.append((hs, make_probe(I, base_cls, hs, "Probe%d_%d" % (h, k),
                                            prefix=rng.choice(["visit_", "visit_", "handle_", "on_"]),
                                            generic_name=rng.choice(["generic_visit", "generic_visit", "fallback"]))))
         instances = []
@@ -126,7 +128,8 @@ def run(ctx):
                     ctx.fail("node dispatched to %s instead of the handler of its most specific class %s" % (e["h"], exp),
                              {"handlers": hs, "tree": tlist[j], "path": list(p), "history": len(log)})
                     break
-                if e["path"] != list(p) or not e["parents_ok"]:
+                if (e["path"] != list(p) and not (e["path"] is None and not isinstance(inst, I.visitor.PathTrackingVisitor))) \
+                        or not e["parents_ok"]:
                     ctx.fail("wrong context (path %r / parents) for the node at %r" % (e["path"], list(p)),
                              {"handlers": hs, "tree": tlist[j], "path": list(p)})
                     break
@@ -143,6 +146,8 @@ def run(ctx):
             if not trees.unchanged(o, s):
                 ctx.fail("visiting modified the tree", {"tree": d})
         for hs, inst, log in instances:
+            if not isinstance(inst, I.visitor.PathTrackingVisitor):
+                continue        # (the model's event stream carries paths)
             reqs.append({"op": "visitseq", "handlers": hs, "trees": [dj for _, _, dj in log]})
             expected.append([[{"h": e["h"], "path": e["path"]} for e in evs] for _, evs, _ in log])
         ctx.count("histories")
